@@ -444,7 +444,12 @@ pub fn run(tier: Tier) -> ! {
             return;
         }
         evals.fetch_add(1, Ordering::Relaxed);
-        match run_case(case) {
+        // any panic of an accessor that the case evaluation calls unguarded is a violation of its own
+        let r = match catch(|| run_case(case)) {
+            Ok(r) => r,
+            Err(p) => Err(("accessor.panic".to_string(), format!("{}:{} {}", p.file, p.line, p.msg))),
+        };
+        match r {
             Ok(o) => {
                 *outcomes.lock().unwrap().entry(o).or_insert(0) += 1;
             }
@@ -489,5 +494,5 @@ pub fn replay(v: &Value) {
     };
     println!("{case:?}");
     println!("reference blocks: {:?}", if case.pdu.len() > 6 { ref_blocks(&case.pdu[6..], true) } else { vec![] });
-    println!("result: {:?}", run_case(&case));
+    println!("result: {:?}", catch(|| run_case(&case)).map_err(|p| format!("panic {}:{} {}", p.file, p.line, p.msg)));
 }
